@@ -446,6 +446,44 @@ def recvmax(F, R):
                 if any(p and 'receive_max' in p for p in ap2):
                     ok = True
     R.ob('C12.recvmax', 'v5-client|max_receive<-CONNECT.receive_max', ok, 'the client does not derive its inbound limit from the receive_max it advertised in CONNECT')
+    # ... the CONNECT one, not the CONNACK's (which limits the other direction and shadows the name `pkt` in the accept arm)
+    def field_adts(op, depth=0, seen=None):
+        seen = seen if seen is not None else set()
+        out = set()
+        pl = op_place(op)
+        if pl is None or depth > 12:
+            return out
+        for e in place_proj(pl):
+            if isinstance(e, dict) and e.get('f') == 'receive_max':
+                out.add(e.get('adt'))
+        if pl['l'] in seen:
+            return out
+        seen.add(pl['l'])
+        for d_ in cn.whole_defs(pl['l']):
+            if d_[0] not in cn.live:
+                continue
+            if d_[2] == 'assign':
+                rv = d_[3]['rv']
+                if rv['k'] in ('use', 'cast') and rv.get('op') is not None:
+                    out |= field_adts(rv['op'], depth + 1, seen)
+                elif rv['k'] in ('ref', 'discr'):
+                    out |= field_adts({'cp': rv['place']}, depth + 1, seen)
+                elif rv['k'] == 'agg':
+                    for f_ in rv.get('fields') or []:
+                        out |= field_adts(f_, depth + 1, seen)
+            elif d_[2] == 'call' and re.search(r'::(map_or|get|unwrap_or|unwrap|into|from|map|copied|cloned|as_ref)$', callee_name(d_[3]) or ''):
+                for a_ in d_[3]['args']:
+                    out |= field_adts(a_, depth + 1, seen)
+        return out
+    adts_ = set()
+    lim_idx = None
+    for bi, t in news:
+        for a in t['args']:
+            fa = field_adts(a)
+            if fa:
+                adts_ |= fa
+    R.ob('C12.recvmax', 'v5-client|max_receive-is-the-CONNECT-field', bool(adts_) and all((x or '').endswith('connect::Connect') for x in adts_),
+         'the inbound limit handed to the client is read from %s: the Receive Maximum of CONNACK limits what the client may send, the client must enforce the value it announced in CONNECT' % sorted(map(str, adts_)), cn.loc(news[0][0]) if news else cn.loc(0))
 
 
 def resolves_to(b, l, targets):
